@@ -276,6 +276,15 @@ func (vm *VM) callNative(fn *NativeFunction, numVariadic int8, shift StackShift,
 	// Make a copy of the frame pointer.
 	fp := vm.fp
 
+	// If the function panics, restore the frame pointer: the registers of
+	// the calling function are read if the panic is recovered.
+	panicking := true
+	defer func() {
+		if panicking {
+			vm.fp = fp
+		}
+	}()
+
 	// Shift the frame pointer.
 	vm.fp[0] += Addr(shift[0])
 	vm.fp[1] += Addr(shift[1])
@@ -316,6 +325,7 @@ func (vm *VM) callNative(fn *NativeFunction, numVariadic int8, shift StackShift,
 			}
 		}
 		vm.fp = fp
+		panicking = false
 		return
 	}
 
@@ -451,6 +461,7 @@ func (vm *VM) callNative(fn *NativeFunction, numVariadic int8, shift StackShift,
 	}
 
 	vm.fp = fp // Restore the frame pointer.
+	panicking = false
 
 	return
 }
